@@ -43,6 +43,11 @@ def classify_block_writes(ck, rule, body, _depth=0):
             isite, ia, key = cands[-1] if len(cands) == 1 else max(cands, key=lambda x: body.dominates(x[0], site))
             rec.update(insert_site=isite, insert_args=ia, lastkey_call=key)
             rec["kind"] = "paired" if _only_bypass_is_absent_parent(body, isite, site, ia[0]) else ("root" if _guarded_by_empty_head(body, site, bw) else "unpaired")
+            # (reachability within one iteration: a new iteration re-evaluates the call that yields the writer)
+            defs_ = {x.x["site"].bb for x in bw.walk() if x.k == "call" and x.x.get("site") is not None}
+            if rec["kind"] == "paired" and site.bb != isite.bb and site.bb not in reachable_without(body, banned_blocks=defs_, start=isite.bb):
+                # never reached through the insert at all: this site only serves the "no level above" case
+                rec["kind"] = "root" if _guarded_by_empty_head(body, site, bw) else "unpaired"
         else:
             rec["kind"] = "root" if _guarded_by_empty_head(body, site, bw) else "unpaired"
         if rec["kind"] == "unpaired" and _depth == 0:
@@ -123,6 +128,15 @@ def _guarded_by_empty_head(body, wsite, bw):
             true_t = t["otherwise"]
             if body.dominates(true_t, wsite.bb) and not any(body.dominates(f, wsite.bb) for f in false_t):
                 return True
+        # the same fact stated through an accessor: `match head.last_mut() / last() / first() { None => .. }`
+        if e.k == "discr" and e.a[0].strip().k == "call" and e.a[0].strip().x["path"].rsplit("::", 1)[-1] in ("last_mut", "last", "first", "first_mut", "split_last", "split_last_mut", "split_first"):
+            hp = split_part(e.a[0].strip().a[0])
+            if hp is not None and hp[0] == sp[0] and hp[1] == 1:
+                e2, enum, labels, oth = switch_on(body, bb)
+                none_t = labels.get("None")
+                some_t = labels.get("Some")
+                if none_t is not None and body.dominates(none_t, wsite.bb) and (some_t is None or not body.dominates(some_t, wsite.bb)):
+                    return True
     return False
 
 
@@ -163,8 +177,13 @@ def r1_count(ck, F):
         rets = [Site(r, None) for r in b.return_blocks()]
         data_ins = [s for s, c_, t in calls(b, A("bw_insert")) if is_self_field(b.arg_exprs(s)[0], "block_writer")]
         ck.exact(R, "data BlockWriter::insert sites in Writer::insert", len(data_ins), 1, F.config)
-        ck.ob(R, "increment-on-every-path", all(b.dominates(site, r) for r in rets) and all(b.dominates(d, site) for d in data_ins),
-              "the increment is dominated by the data-block insert and dominates every return of Writer::insert", b, site)
+        # the entry is appended and counted together: every succeeding path that appended it passes the
+        # increment, and the increment's value was computed on a path that appends it (a validity check
+        # that returns Err before either of them is not a path that inserted anything)
+        both = bool(data_ins) and all(on_every_success_path_after(b, d.bb, site) for d in data_ins)
+        both = both and all(on_every_success_path_after(b, 0, d) for d in data_ins) and on_every_success_path_after(b, 0, site)
+        ck.ob(R, "increment-on-every-path", both,
+              "every succeeding path through Writer::insert passes the data-block insert and the increment", b, site)
         for d in data_ins:
             a = b.arg_exprs(d)
             ck.ob(R, "insert-gets-callers-entry", is_arg(a[1], "key") and is_arg(a[2], "val"),
@@ -455,8 +474,35 @@ def r4_index_pair(ck, F, R="C01-R4"):
                 between = mut_uses_between(b, csite, site, writer_sink_mut)
                 ck.ob(R, f"offset-read-before-write/{key}", b.dominates(csite, site) and not between,
                       "count() dominates the block write and nothing writes to the sink between them" + (f" (sink writes in between at {[b.loc(s) for s in between]})" if between else ""), b, csite)
-    ck.floor(R, "paired block-write sites", npaired, 4, F.config)
-    ck.exact(R, "root block-write sites", nroot, 1, F.config)
+    ck.floor(R, "paired block-write sites", npaired, 3, F.config)     # 4 on the pinned tree; sites may be shared through a helper
+    # the root index block — the level with no level above it — is written on every finish, even when it
+    # holds no entry: specialise the finish code to "this level has no last key" and "there is no level
+    # above" and a block write of that level's writer must remain reachable
+    fin = F.body(A("writer_into_inner"))
+
+    def _level_writer(e):
+        sp = split_part(e)
+        return sp is not None and sp[1] == 0
+
+    def _head(e):
+        sp = split_part(e)
+        return sp is not None and sp[1] == 1
+
+    def chooser(e, enum):
+        if e.k == "discr":
+            c_ = e.a[0].strip()
+            if c_.k == "call" and c_.x["path"].endswith(A("bw_last_key")) and c_.a and _level_writer(c_.a[0]):
+                return "None"
+            if c_.k == "call" and c_.x["path"].rsplit("::", 1)[-1] in ("last_mut", "last", "first", "first_mut") and c_.a and _head(c_.a[0]):
+                return "None"
+        if e.k == "call" and e.x["path"].endswith("::is_empty") and e.a and _head(e.a[0]):
+            return "true"
+        if e.k == "un" and e.x.get("op") == "Not" and e.a[0].k == "call" and e.a[0].x["path"].endswith("::is_empty") and _head(e.a[0].a[0]):
+            return "false"
+        return None
+    sb = specialise_switch(fin, chooser, None)
+    root_writes = [s for s, c, t in calls(sb, A("write_block")) if s.bb in sb.normal_blocks() and _level_writer(sb.arg_exprs(s)[1])]
+    ck.ob(R, "root-always-written", sb.specialised[1] >= 1 and len(root_writes) >= 1, f"with no last key and no level above, into_inner still writes the level's block ({len(root_writes)} reachable write site(s) after resolving {sb.specialised[1]} decision(s)): the root index block exists in every file", fin)
 
 
 # ---------------------------------------------------------------------------------------
@@ -545,8 +591,17 @@ def r6_depth(ck, F):
         e = agg_field_expr(b, s, rv, "index_levels").strip()
         ok = False
         why = e.show()
+        # narrowing by `as u8` or by a checked conversion (try_into / try_from whose failure is an error exit)
+        inner = None
         if e.k == "cast" and e.x["to"] == "u8":
-            c_ = checked(e.a[0])
+            inner = e.a[0]
+        else:
+            p = unwrap_payload(e, "Ok")
+            p = p.strip() if p is not None else e
+            if p.k == "call" and p.x["path"].rsplit("::", 1)[-1] in ("try_into", "try_from") and p.a:
+                inner = p.a[-1]
+        if inner is not None:
+            c_ = checked(inner)
             if c_ and c_[0] == "Sub" and const_val(c_[2]) == 1 and is_call(c_[1], "Vec::<T, A>::len") and is_self_field(c_[1].strip().a[0], "index_block_writers"):
                 ok = True
         ck.ob(R, "trailer-levels-narrowed-last", ok, f"Metadata.index_levels := {why} (expected (index_block_writers.len() - 1) as u8: subtract, then narrow)", b, s)
@@ -588,7 +643,8 @@ def r8_pending_block(ck, F, R="C01-R8"):
     from .c03 import r5_wrappers
     lk = F.body(A("bw_last_key"))
     e = lk.expr_at_return()
-    pure = pure_option_view(e, "last_key")
+    from .lastkey import LastKeyRepr
+    pure = LastKeyRepr(F).getter_pure(lk)
     ck.ob(R, "last-key-getter-pure", pure and len(list(lk.calls())) <= 3, f"BlockWriter::last_key is a pure view of the field: {e.show()}", lk)
     r3_lastkey_life(ck, F, R)
     r1_order_assert(ck, F, R)
@@ -599,12 +655,9 @@ def r8_pending_block(ck, F, R="C01-R8"):
             if not is_self_field(b.arg_exprs(site)[1], "block_writer"):
                 continue
             guards = []
-            for bb in sorted(b.normal_blocks()):
-                if b.term(bb)["t"] == "switch" and b.dominates(bb, site.bb) and bb != site.bb:
-                    succs_dom = [x for x in b.succs(bb) if b.dominates(x, site.bb)]
-                    if len(succs_dom) == 1 and len(b.succs(bb)) > 1:
-                        e2 = b.expr_of_operand(b.term(bb)["discr"], Site(bb, None))
-                        guards.append(e2.show()[:70])
+            for bb in success_guards(b, site):
+                e2 = b.expr_of_operand(b.term(bb)["discr"], Site(bb, None))
+                guards.append(e2.show()[:70])
             want_max = 3 if path == A("writer_insert") else 2
             ok = any("BlockWriter::last_key(self.block_writer)" in g for g in guards) and len(guards) <= want_max
             ck.ob(R, f"flush-guard/{path.split('::')[-1]}", ok, f"data block flush is guarded by {guards}", b, site)
